@@ -33,6 +33,15 @@ Fixpoint walk (fuel : nat) (s : smap) (t : term) : term :=
   end.
 Definition wk (s : smap) (t : term) : term := walk (S (length s)) s t.
 
+(* [wk] checked: None when the walk stopped for lack of fuel on a variable that is still bound
+   (only possible for a cyclic substitution, where the Rust loop would not terminate) *)
+Definition bound_in (v : nat) (s : smap) : bool :=
+  match lookup v s with Some _ => true | None => false end.
+Definition final (s : smap) (t : term) : bool :=
+  match t with TVar v _ => negb (bound_in v s) | _ => true end.
+Definition wkc (s : smap) (t : term) : option term :=
+  let r := wk s t in if final s r then Some r else None.
+
 (* depth fuel used by the executable entry points *)
 Definition dfuel : nat := N.to_nat 4000.
 
@@ -71,16 +80,17 @@ Fixpoint occurs (f : nat) (s : smap) (x : nat) (t : term) : option bool :=
   match f with
   | O => None
   | S f' =>
-      match wk s t with
-      | TVar v _ => Some (Nat.eqb v x)
-      | TCons h tl =>
+      match wkc s t with
+      | None => None
+      | Some (TVar v _) => Some (Nat.eqb v x)
+      | Some (TCons h tl) =>
           match occurs f' s x h with
           | Some true => Some true
           | Some false => occurs f' s x tl
           | None => None
           end
-      | TComp _ cs => occurs_list f' s x cs
-      | _ => Some false
+      | Some (TComp _ cs) => occurs_list f' s x cs
+      | Some _ => Some false
       end
   end
 with occurs_list (f : nat) (s : smap) (x : nat) (ts : terms) : option bool :=
@@ -128,9 +138,6 @@ with reify_list (f : nat) (s : smap) (n : nat) (ts : terms) : option (smap * nat
           end
       end
   end.
-
-Definition bound_in (v : nat) (s : smap) : bool :=
-  match lookup v s with Some _ => true | None => false end.
 
 (* SMap::is_anyvar : v is a key of the map that walks to a variable (recursively through lists/compounds) *)
 Fixpoint is_anyvar (s : smap) (t : term) : bool :=
